@@ -45,7 +45,7 @@ import (
 // case description (also the replay format)
 
 type kase struct {
-	Kind   string `json:"kind"` // honest | flip | torsion | alts | qn | nodegrid | seq | dirty
+	Kind   string `json:"kind"` // honest | flip | torsion | alts | qn | nodegrid | seq | dirty | order
 	Key    int    `json:"key"`
 	Series string `json:"series"` // ctr | len
 	I      int64  `json:"i"`
@@ -750,7 +750,7 @@ var witnesses = []witness{
 	{1, "ctr", 69341, 2, false},
 	{2, "ctr", 99449, 2, false},
 	{0, "ctr", 119845, 2, false},
-	{0, "ctr", 339, 1, true}, // 00 c1 99 ...
+	{0, "ctr", 479, 1, true}, // 00 c1 99 ...
 }
 
 // ---------------------------------------------------------------------------------------------
@@ -905,7 +905,11 @@ func run(c *fw.Ctx) {
 		}
 		return true
 	}
-	// stored witnesses first (cheap, and the part of quick that reaches the two-leading-zero padding path)
+	// order oracle first: its phase R needs a process in which the base proofs have never been accepted
+	if !runOrder(c, sz, &idx) {
+		stop("time budget: order oracle incomplete")
+	}
+	// stored witnesses next (cheap, and the part of quick that reaches the two-leading-zero padding path)
 	for _, w := range witnesses {
 		idx++
 		if w.series == "ctr" && w.i < sz.N {
@@ -996,6 +1000,11 @@ func replay(c *fw.Ctx, raw json.RawMessage) {
 		replaySeq(c, ks)
 		return
 	}
+	if ks.Kind == "order" {
+		r, _ := orderCase(ks.Key, ks.Series, ks.I, ks.Fn)
+		report(c, ks, r, func() result { r2, _ := orderCase(ks.Key, ks.Series, ks.I, ks.Fn); return r2 })
+		return
+	}
 	if ks.Kind == "selfcheck" {
 		if torsErr != "" {
 			c.Violation("C16:curve:torsion-selfcheck", "torsion", torsErr, ks)
@@ -1037,7 +1046,9 @@ func main() {
 			"against an exact big.Rat model, and the same grid proposer (genProve) against verifier (verifyBlockVRF on the marshalled header); " +
 			"7 stored witnesses (6 proofs with two leading zero bytes, 1 with 00 followed by a byte >= 0x80) regenerated and taken through every part; " +
 			"sequence oracles: for 13 functions all ordered pairs over 12 pool entries and all ordered triples over 4 (result stability after later calls and caller-side overwrites, arguments unchanged, " +
-			"same result on re-use), and dirty-destination decoding of points over all ordered pairs of a pool of valid/invalid encodings. Every case is distinct by construction; non-trivial = an honest proof taken through both paths, a mutant submitted to the verifier, " +
+			"same result on re-use), order oracle: for the 7 witnesses and the first G messages of every key, at each of the layers ECVRFVerify / VRFVerify / verifyBlockVRF: every single-bit mutant of " +
+			"message (preBH.Random), public key and proof plus other deltas / an unrelated previous header presented before the honest triple, the honest triple, then all mutants again with the honest triple in between " +
+			"(every reject and accept verdict history-independent), and dirty-destination decoding of points over all ordered pairs of a pool of valid/invalid encodings. Every case is distinct by construction; non-trivial = an honest proof taken through both paths, a mutant submitted to the verifier, " +
 			"a crafted proof whose challenge is consistent with the guess (i.e. actually submitted), a grid point evaluated (panics on workingMiners>totalStake excluded).",
 		Assumptions: []string{
 			"the repository's own curve/scalar arithmetic is used to build adversarial proofs (only through the group law; small-order table self-checked by repeated addition)",
